@@ -126,6 +126,8 @@ type Gen struct {
 	EmptySlices bool
 	// NoEmptyStrings avoids empty string values (wire-validity oracle restriction).
 	NoEmptyStrings bool
+	// BadFloats: every third float is NaN or infinite (a handler result whose JSON body cannot be encoded).
+	BadFloats bool
 }
 
 func isMaybe(t reflect.Type) (string, bool) {
@@ -245,6 +247,9 @@ func (g *Gen) int64n(bits int) int64 {
 
 func (g *Gen) float(bits int) float64 {
 	r := g.R
+	if g.BadFloats && r.IntN(3) == 0 {
+		return []float64{math.NaN(), math.Inf(1), math.Inf(-1)}[r.IntN(3)]
+	}
 	if g.EmptySlices && r.IntN(10) == 0 {
 		// what only a handler can produce: a number JSON cannot carry (the response cannot be encoded)
 		return []float64{math.NaN(), math.Inf(1), math.Inf(-1)}[r.IntN(3)]
